@@ -26,6 +26,21 @@ PROP = "C08"
 SIG_MPF = "molecules-per-file"
 
 
+def jvm(gb):
+    """bounded heap: a dozen TLC runs are started concurrently and the default heap is a quarter of the machine each"""
+    return {"JAVA_TOOL_OPTIONS": "-Xss64m -Xmx%dg" % gb}
+
+
+def tlc_jobs(jobs):
+    """tlc_many, repeated once if a JVM died without a TLC-level verdict (memory pressure while others run)"""
+    try:
+        return c.tlc_many(jobs)
+    except c.MachineryError as exc:
+        if "Error:" in str(exc) and "OutOfMemory" not in str(exc):
+            raise
+        return c.tlc_many(jobs)
+
+
 def scratch(name):
     """directory for the transient per-case file trees: tmpfs when available (a file creation under work/ costs ~1 ms),
     nothing a stored replay needs lives here (violations store the abstract case, which is rendered again)"""
@@ -426,7 +441,7 @@ def _replay_chunk(arg):
     return bad, nreads
 
 
-def replay_export(ck, res, label, probe=False, limit=None):
+def replay_export(ck, res, label, probe=False, seen=None):
     alphas = res.tagged("ALPHABET")
     cases = res.cases()
     if not alphas or not cases:
@@ -435,9 +450,12 @@ def replay_export(ck, res, label, probe=False, limit=None):
     uniq = {}
     for cs in cases:
         uniq.setdefault(tuple(cs["c"]), cs)
+    if seen is not None:      # partitions of one instance share the short mains
+        for k in list(uniq):
+            if k in seen:
+                del uniq[k]
+        seen.update(uniq)
     cases = [uniq[k] for k in sorted(uniq)]
-    if limit and len(cases) > limit:
-        cases = random.Random(c.seed()).sample(cases, limit)
     idx = list(enumerate(cases))
     parts = [(alpha, ch, probe) for ch in c.chunks(idx, c.NPROC * 4)]
     nbad = 0
@@ -891,7 +909,10 @@ def validate(ck, recs, name, expect_reject=False):
     wd = c.workdir(PROP, name)
     f = wd / "traces.json"
     f.write_text(json.dumps({"traces": [{"main": r["main"], "files": r["files"], "obs": tla_safe(r)["obs"]} for r in recs]}))
-    res = c.tlc("TopReadTrace", "Top_trace.cfg", workers=1, env={"TRACE_FILE": str(f)}, check=False, timeout=1500)
+    for attempt in (1, 2):
+        res = c.tlc("TopReadTrace", "Top_trace.cfg", workers=1, env=dict(jvm(6), TRACE_FILE=str(f)), check=False, timeout=1500)
+        if res.finished or res.errors:
+            break           # a JVM that died without a TLC-level verdict is started once more
     rej = res.tagged("REJECTED")
     if res.tagged("OUTOFDOMAIN"):
         raise c.MachineryError("a recorded input is outside the domain of C08: trace %s" % res.tagged("OUTOFDOMAIN"))
@@ -943,7 +964,7 @@ def run(tier):
     wd = c.workdir(PROP, "cfg")
     cond_jobs = []
     if quick:
-        cond_jobs.append(("TopReadMC", "Top_cond_quick.cfg", {"workers": max(2, c.NPROC // 3)}))
+        cond_jobs.append(("TopReadMC", "Top_cond_quick.cfg", {"workers": max(2, c.NPROC // 3), "env": jvm(6)}))
     else:
         # the full 3-chunk instance, partitioned by first chunk into concurrent TLC runs
         nparts = 4
@@ -952,19 +973,19 @@ def run(tier):
             first = "{%s}" % ", ".join(str(i) for i in range(1, 67) if i % nparts == p)
             f = wd / ("Top_cond_part%d.cfg" % p)
             f.write_text(base.replace("First = {}", "First = %s" % first))
-            cond_jobs.append(("TopReadMC", f, {"workers": max(2, c.NPROC // 4), "timeout": 3000}))
+            cond_jobs.append(("TopReadMC", f, {"workers": max(2, c.NPROC // 4), "timeout": 3000, "env": jvm(8)}))
     jobs = cond_jobs + [
-        ("TopReadMC", "Top_sec.cfg", {"workers": 2, "coverage": True}),
-        ("TopReadMC", "Top_mols.cfg", {"workers": 2}),
-        ("TopReadMC", "Top_split.cfg", {"workers": 2, "coverage": True}),
-        ("TopReadMC", "Top_split_intended.cfg", {"workers": 2}),
-        ("TopReadMC", "Top_cond_intended.cfg", {"workers": 2, "coverage": True}),
-        ("TopReadMC", "Top_dev_f3.cfg", {"workers": 1, "check": False}),
-        ("TopReadMC", "Top_dev_molsperfile.cfg", {"workers": 1, "check": False}),
-        ("TopReadMC", "Top_dev_dirkeep.cfg", {"workers": 1, "check": False}),
-        ("TopReadMC", "Top_dev_elsekeep.cfg", {"workers": 1, "check": False}),
+        ("TopReadMC", "Top_sec.cfg", {"env": jvm(3), "workers": 2, "coverage": True}),
+        ("TopReadMC", "Top_mols.cfg", {"env": jvm(3), "workers": 2}),
+        ("TopReadMC", "Top_split.cfg", {"env": jvm(3), "workers": 2, "coverage": True}),
+        ("TopReadMC", "Top_split_intended.cfg", {"env": jvm(3), "workers": 2}),
+        ("TopReadMC", "Top_cond_intended.cfg", {"env": jvm(3), "workers": 2, "coverage": True}),
+        ("TopReadMC", "Top_dev_f3.cfg", {"env": jvm(2), "workers": 1, "check": False}),
+        ("TopReadMC", "Top_dev_molsperfile.cfg", {"env": jvm(2), "workers": 1, "check": False}),
+        ("TopReadMC", "Top_dev_dirkeep.cfg", {"env": jvm(2), "workers": 1, "check": False}),
+        ("TopReadMC", "Top_dev_elsekeep.cfg", {"env": jvm(2), "workers": 1, "check": False}),
     ]
-    results = c.tlc_many(jobs)
+    results = tlc_jobs(jobs)
     conds = results[:len(cond_jobs)]
     sec, mols, split, split_int, cond_int, d_f3, d_mpf, d_dir, d_else = results[len(cond_jobs):]
     for r in conds:
@@ -984,8 +1005,9 @@ def run(tier):
         raise c.MachineryError("I-layer actions never taken in the exhaustive instances (vacuous): %s" % idle)
 
     ck.stage("replay cond export")
+    seen = set()
     for r in conds:
-        cases, alpha, _ = replay_export(ck, r, "cond")
+        cases, alpha, _ = replay_export(ck, r, "cond", seen=seen)
     mid = cases[len(cases) // 2]
     ck.sample({"S->I case (cond)": main_summary(alpha, mid["c"]), "expected": mid["exp"]})
     ck.stage("replay sec / mols / split exports")
